@@ -70,10 +70,16 @@ type c19Case struct {
 	mllama bool
 	proj   int // 0 nil, 1 empty non-nil, 2 non-empty
 	limit  int
-	style  int
-	mode   int // tokenizer: 0 fields, 1 bytes
+	style  int    // 0-3 harness templates, 4.. shipped templates, -1 generated (src)
+	src    string // template source when style < 0
+	mode   int    // tokenizer: 0 fields, 1 bytes
 	msgs   []c19Msg
+
+	tm  *template.Template // parsed lazily
+	ast string             // serialised parse tree ("X" = outside the modelled subset)
 }
+
+const c19StyleGenerated = -1
 
 var c19RoleNames = map[string]string{"s": "system", "u": "user", "a": "assistant", "t": "tool", "o": "control"}
 
@@ -82,8 +88,27 @@ type c19Env struct {
 	pool     [][]byte // decodable PNGs, src = 1000+idx
 	poolPre  [][]byte // their mllama.Preprocess output, serialised as chatPrompt does
 	poolAR   []int
-	fixed    int // variant of the tree under test: bit 0 = F4 probe repaired, bit 1 = legacy-loop (F4b) probe repaired
+	srcs     []string
+	fixed    int // variant of the tree under test: f4fixed + 2*lmode + 8*efix (see the oracle)
 	probeOdd int // probes that matched neither variant
+}
+
+// tmplOf parses (once) and serialises the case's template with the real template.Parse.
+func (e *c19Env) tmplOf(c *c19Case) *template.Template {
+	if c.tm == nil {
+		if c.style >= 0 {
+			c.tm = e.tmpl[c.style]
+			c.src = e.srcs[c.style]
+		} else {
+			tm, err := template.Parse(c.src)
+			if err != nil {
+				panic(fmt.Sprintf("generated template does not parse: %v: %q", err, c.src))
+			}
+			c.tm = tm
+		}
+		c.ast, _ = c19Serialise(c.tm)
+	}
+	return c.tm
 }
 
 func c19NewEnv(t *testing.T) *c19Env {
@@ -94,17 +119,20 @@ func c19NewEnv(t *testing.T) *c19Env {
 			t.Fatal(err)
 		}
 		e.tmpl = append(e.tmpl, tm)
+		e.srcs = append(e.srcs, s)
 	}
 	for _, name := range c19RealTemplates {
 		src, err := os.ReadFile("../template/" + name + ".gotmpl")
 		if err != nil {
 			t.Fatalf("real template %s: %v", name, err)
 		}
-		tm, err := template.Parse(strings.ReplaceAll(string(src), "\r\n", "\n"))
+		text := strings.ReplaceAll(string(src), "\r\n", "\n")
+		tm, err := template.Parse(text)
 		if err != nil {
 			t.Fatalf("real template %s: %v", name, err)
 		}
 		e.tmpl = append(e.tmpl, tm)
+		e.srcs = append(e.srcs, text)
 	}
 	for _, sz := range [][2]int{{5, 5}, {6, 3}, {2, 7}} {
 		img := image.NewRGBA(image.Rect(0, 0, sz[0], sz[1]))
@@ -148,9 +176,23 @@ func c19NewEnv(t *testing.T) *c19Env {
 	switch r.prompt {
 	case "again ":
 	case "hello again ":
-		e.fixed |= 2
+		e.fixed |= 2 // lmode 1: flush repair
+	case "hello\n\nagain ":
+		e.fixed |= 4 // lmode 2: join repair
 	default:
 		t.Logf("C19 legacy variant probe: unexpected prompt %q (err=%v)", r.prompt, r.err)
+		e.probeOdd++
+	}
+	// deleteNode else-list (F4c probe): bit 3
+	probe = c19Case{style: c19StyleGenerated, src: `{{ .Prompt }}{{ if .System }}{{ .Response }}{{ else }}x{{ end }}`, limit: 2048,
+		msgs: []c19Msg{{role: "u", content: "hi"}}}
+	r = e.runReal(&probe)
+	switch {
+	case r.panicked != "":
+	case r.err == nil && r.prompt == "hi":
+		e.fixed |= 8
+	default:
+		t.Logf("C19 cut variant probe: unexpected prompt %q (err=%v)", r.prompt, r.err)
 		e.probeOdd++
 	}
 	return e
@@ -178,7 +220,7 @@ func (e *c19Env) apiMsgs(c *c19Case) []api.Message {
 }
 
 func (e *c19Env) model(c *c19Case) *Model {
-	m := &Model{Template: e.tmpl[c.style]}
+	m := &Model{Template: e.tmplOf(c)}
 	switch c.proj {
 	case 1:
 		m.ProjectorPaths = []string{}
@@ -207,9 +249,11 @@ func c19Tokens(mode int, s string) int {
 	return n
 }
 
-// costs[i] = tokens of the real template on system(i) ++ msgs[i:], for 0 <= i < L-1.
+// costs[i] = tokens of the real template on system(i) ++ msgs[i:], for 0 <= i < L-1;
+// -1 = Execute returned an error, -2 = Execute panicked.
 func (e *c19Env) costs(c *c19Case) []int {
 	var out []int
+	tm := e.tmplOf(c)
 	for i := 0; i+1 < len(c.msgs); i++ {
 		msgs := e.apiMsgs(c)
 		var in []api.Message
@@ -219,13 +263,22 @@ func (e *c19Env) costs(c *c19Case) []int {
 			}
 		}
 		in = append(in, msgs[i:]...)
-		var b bytes.Buffer
-		if err := e.tmpl[c.style].Execute(&b, template.Values{Messages: in}); err != nil {
-			panic(err)
-		}
-		out = append(out, c19Tokens(c.mode, b.String()))
+		out = append(out, c19Measure(tm, c.mode, in))
 	}
 	return out
+}
+
+func c19Measure(tm *template.Template, mode int, in []api.Message) (n int) {
+	defer func() {
+		if r := recover(); r != nil {
+			n = -2
+		}
+	}()
+	var b bytes.Buffer
+	if err := tm.Execute(&b, template.Values{Messages: in}); err != nil {
+		return -1
+	}
+	return c19Tokens(mode, b.String())
 }
 
 type c19Real struct {
@@ -273,7 +326,7 @@ func (c *c19Case) opLine(fixed int, costs []int) string {
 		}
 		return 0
 	}
-	fmt.Fprintf(&sb, "chat %d %d %d %d %d %d %d", fixed, b2i(c.mllama), c.proj, c.limit, c.style, c.mode, len(c.msgs))
+	fmt.Fprintf(&sb, "chat %d %d %d %d %d %s %s %d", fixed, b2i(c.mllama), c.proj, c.limit, c.mode, zzverif.Hex([]byte(c.src)), c.ast, len(c.msgs))
 	for _, m := range c.msgs {
 		fmt.Fprintf(&sb, " %s %s %d", m.role, zzverif.Hex([]byte(m.content)), len(m.imgs))
 		for _, im := range m.imgs {
@@ -282,7 +335,14 @@ func (c *c19Case) opLine(fixed int, costs []int) string {
 	}
 	fmt.Fprintf(&sb, " %d", len(costs))
 	for _, x := range costs {
-		fmt.Fprintf(&sb, " %d", x)
+		switch x {
+		case -1:
+			sb.WriteString(" E")
+		case -2:
+			sb.WriteString(" P")
+		default:
+			fmt.Fprintf(&sb, " %d", x)
+		}
 	}
 	return sb.String()
 }
@@ -319,8 +379,41 @@ func c19ParseLine(line string) (*c19Case, error) {
 		c.mllama = num() != 0
 		c.proj = num()
 		c.limit = num()
-		c.style = num()
 		c.mode = num()
+		c.src = string(zzverif.Unhex(next()))
+		c.style = c19StyleGenerated // resolved against the known sources by the caller
+		// skip the serialised tree: it is regenerated from the source
+		if next() == "T" {
+			var skipNodes func()
+			skipExpr := func() {}
+			skipExpr = func() {
+				switch next() {
+				case "f", "v", "s":
+					next()
+				case "not":
+					skipExpr()
+				default: // eq ne and or
+					skipExpr()
+					skipExpr()
+				}
+			}
+			skipNodes = func() {
+				for k := num(); k > 0; k-- {
+					switch next() {
+					case "T":
+						next()
+					case "A":
+						skipExpr()
+					default: // I, R
+						skipExpr()
+						skipNodes()
+						num()
+						skipNodes()
+					}
+				}
+			}
+			skipNodes()
+		}
 		n := num()
 		for i := 0; i < n; i++ {
 			m := c19Msg{role: next()}
@@ -359,6 +452,9 @@ func (e *c19Env) implLine(c *c19Case, r *c19Real) string {
 		if strings.Contains(r.panicked, "slice bounds out of range [-1:]") {
 			return "panic:empty"
 		}
+		if strings.Contains(r.panicked, "parse.Node is nil, not *parse.ListNode") {
+			return "panic:template-cut"
+		}
 		return "panic:other:" + strings.ReplaceAll(r.panicked, " ", "_")
 	}
 	if r.err != nil {
@@ -367,6 +463,8 @@ func (e *c19Env) implLine(c *c19Case, r *c19Real) string {
 			return "err:too-many-images"
 		case strings.Contains(r.err.Error(), "failed to decode image"):
 			return "err:preprocess"
+		case strings.HasPrefix(r.err.Error(), "template:"):
+			return "err:template"
 		}
 		return "err:other:" + strings.ReplaceAll(r.err.Error(), " ", "_")
 	}
@@ -391,7 +489,7 @@ func (e *c19Env) implLine(c *c19Case, r *c19Real) string {
 	for _, m := range r.msgs {
 		ms = append(ms, zzverif.Hex([]byte(m.Content)))
 	}
-	if c.style > c19StyleInPlace {
+	if c.ast == "X" {
 		return fmt.Sprintf("ok q=%d imgs=%s msgs=%s prompt=? costs=?", r.calls, is, strings.Join(ms, ";"))
 	}
 	return fmt.Sprintf("ok q=%d imgs=%s msgs=%s prompt=%s costs=ok", r.calls, is, strings.Join(ms, ";"), zzverif.Hex([]byte(r.prompt)))
@@ -419,6 +517,10 @@ func c19Marker(j int) string { return fmt.Sprintf("m%dq", j) }
 // l2 evaluates the property on the real result.  Messages built by the generator start with the
 // unique word m<j>q; clauses about a message are only evaluated if its content carries its marker.
 func (e *c19Env) l2(out *zzverif.Out, c *c19Case, costs []int, r *c19Real, line string) {
+	if strings.Contains(r.panicked, "parse.Node is nil, not *parse.ListNode") {
+		// no prompt at all: the template layer panics on a template that parses fine
+		out.L2("template-panic", line, "deleteNode else-list: chatPrompt panics in template.Execute: "+c19Clip(r.panicked))
+	}
 	if r.panicked != "" || r.err != nil {
 		return
 	}
@@ -473,7 +575,7 @@ func (e *c19Env) l2(out *zzverif.Out, c *c19Case, costs []int, r *c19Real, line 
 		}
 		in = append(in, r.msgs[n:]...)
 		var b bytes.Buffer
-		if err := e.tmpl[c.style].Execute(&b, template.Values{Messages: in}); err != nil {
+		if err := e.tmplOf(c).Execute(&b, template.Values{Messages: in}); err != nil {
 			return "<execute error: " + err.Error() + ">"
 		}
 		return b.String()
@@ -487,7 +589,7 @@ func (e *c19Env) l2(out *zzverif.Out, c *c19Case, costs []int, r *c19Real, line 
 	} else {
 		out.Count("l2_prompt_equals_spec_render")
 	}
-	generic := c.style > c19StyleInPlace
+	generic := c.style > c19StyleInPlace || c.style < 0
 	hasMarker := func(j int) bool { return strings.Contains(c.msgs[j].content, c19Marker(j)) }
 	literalTag := false
 	for _, m := range c.msgs {
@@ -681,9 +783,15 @@ func c19Gen(r *zzverif.Rng) *c19Case {
 	default:
 		c.proj = 2
 	}
-	c.style = r.Intn(4 + len(c19RealTemplates))
-	if c.style >= 4 && r.Chance(1, 2) {
-		c.style = r.Intn(4) // keep two thirds of the cases on the styles the oracle renders itself
+	switch x := r.Intn(10); {
+	case x < 4:
+		c.style = r.Intn(4)
+	case x < 6:
+		c.style = 4 + r.Intn(len(c19RealTemplates))
+	case x < 8:
+		c.style, c.src = c19StyleGenerated, c19GenMessagesTemplate(r)
+	default:
+		c.style, c.src = c19StyleGenerated, c19GenLegacyTemplate(r)
 	}
 	c.mode = r.Intn(2)
 	L := r.Pick3(1, 4, 9)
@@ -805,13 +913,33 @@ var c19Fixed = []c19Case{
 	{style: 1, proj: 2, mllama: true, limit: 1, msgs: []c19Msg{{role: "u", content: "m0q one two three four", imgs: []c19Img{{1000, true}, {1001, true}}}, {role: "a", content: "m1q a b c d e f"}, {role: "u", content: "m2q x"}}},
 }
 
+// resolveStyle gives a replayed case (which carries only the template source) its style label.
+func (e *c19Env) resolveStyle(c *c19Case) {
+	for i, s := range e.srcs {
+		if s == c.src {
+			c.style = i
+		}
+	}
+}
+
 func (e *c19Env) runCase(out *zzverif.Out, c *c19Case) {
 	costs := e.costs(c)
 	r := e.runReal(c)
 	line := c.opLine(e.fixed, costs)
 	out.Case(line, e.implLine(c, &r))
 	out.Count("cases")
-	out.Count(fmt.Sprintf("style_%d", c.style))
+	if c.style >= 0 {
+		out.Count(fmt.Sprintf("style_%d", c.style))
+	} else if strings.Contains(c.src, ".Messages") {
+		out.Count("style_generated_messages")
+	} else {
+		out.Count("style_generated_legacy")
+	}
+	if c.ast == "X" {
+		out.Count("template_opaque_to_model")
+	} else {
+		out.Count("template_executed_by_model")
+	}
 	out.Count(fmt.Sprintf("len_%d", min(len(c.msgs), 6)))
 	if c.mllama {
 		out.Count("mllama")
@@ -850,7 +978,8 @@ func TestVerifC19(t *testing.T) {
 	defer out.Close()
 	out.Add("variant_probe_unexpected", e.probeOdd)
 	out.Add("variant_f4_fixed", e.fixed&1)
-	out.Add("variant_legacy_fixed", e.fixed>>1)
+	out.Add("variant_legacy_mode", (e.fixed>>1)&3)
+	out.Add("variant_cut_else_fixed", (e.fixed>>3)&1)
 
 	if p := os.Getenv("VERIF_REPLAY"); p != "" {
 		raw, err := os.ReadFile(p)
@@ -865,6 +994,7 @@ func TestVerifC19(t *testing.T) {
 			if err != nil {
 				t.Fatal(err)
 			}
+			e.resolveStyle(c)
 			e.runCase(out, c)
 		}
 		return
@@ -888,6 +1018,7 @@ func TestVerifC19(t *testing.T) {
 					if err != nil {
 						t.Fatalf("%s: %v", ent.Name(), err)
 					}
+					e.resolveStyle(c)
 					e.runCase(out, c)
 					out.Count("corpus_cases")
 				}
